@@ -12,9 +12,11 @@
 #include <exception>
 #include <typeinfo>
 
-static std::string RunOne(const vrt::Entry& e, int fmt, const std::vector<long double>& vals) {
+static std::string RunOne(const vrt::Entry& e, int fmt, const std::vector<long double>& vals,
+                          const std::vector<long long>& params) {
   vrt::Ctx c;
   c.vals = vals;
+  c.params = params;
 #ifndef VERIF_NATIVE
   sym::G().clear_keep_permanent();
 #endif
@@ -33,7 +35,9 @@ static std::string RunOne(const vrt::Entry& e, int fmt, const std::vector<long d
   if (!c.error.empty()) err = c.error;
   std::ostringstream os;
   os << "{\"id\":\"" << vrt::JsonEscape(e.id) << "\",\"fmt\":" << fmt << ",\"n_in\":" << c.next
-     << ",\"arg_sizes\":[";
+     << ",\"params\":[";
+  for (size_t i = 0; i < c.params.size(); ++i) os << (i ? "," : "") << c.params[i];
+  os << "],\"arg_sizes\":[";
   for (size_t i = 0; i < c.arg_sizes.size(); ++i) os << (i ? "," : "") << c.arg_sizes[i];
   os << "],\"outs\":[";
   for (size_t i = 0; i < c.outs.size(); ++i) {
@@ -78,10 +82,14 @@ int main(int argc, char** argv) {
     long idx; int fmt;
     if (!(is >> idx >> fmt)) continue;
     std::vector<long double> vals;
+    std::vector<long long> params;
     std::string tok;
-    while (is >> tok) vals.push_back(std::strtold(tok.c_str(), nullptr));
+    while (is >> tok) {
+      if (tok[0] == '@') params.push_back(std::strtoll(tok.c_str() + 1, nullptr, 10));
+      else vals.push_back(std::strtold(tok.c_str(), nullptr));
+    }
     if (idx < 0 || static_cast<size_t>(idx) >= reg.size()) { std::cout << "{\"error\":\"bad-index\"}\n"; continue; }
-    std::cout << RunOne(reg[static_cast<size_t>(idx)], fmt, vals) << "\n";
+    std::cout << RunOne(reg[static_cast<size_t>(idx)], fmt, vals, params) << "\n";
     std::cout.flush();
   }
   return 0;
